@@ -385,3 +385,29 @@ def mirror_ok(tok, ast):
         if not mirror_ok(c, a):
             return False
     return True
+
+
+S5_SKELETONS = {
+    'table-short-row': '| a | b | c |\n|---|:-:|--:|\n| {} | 2 |\n', 'table-long-row': '| a |\n|---|\n| {} | 2 | 3 |\n', 'table-short-header': '| {} |\n|---|---|\n| 1 | 2 |\n',
+    'setext-in-item': '- {}\n  ===\n- b\n', 'code-in-quote': '> ```\n> {}\n> ```\n>\n>     x\n', 'html-block': '<div>\n{}\n</div>\n\np <b>i</b>\n',
+    'nested': '1. a\n   - {}\n     > q\n2. c\n', 'inline-mix': '*a **{}** `c`* [l](/u "t") ![i](/s) <http://x.y> ~~d~~ \\* e  \nf\n',
+    'empty-containers': '>\n\n-\n\n#\n\n{}\n', 'ref-links': '[{}][l] [l][] [l]\n\n[l]: /u "t"\n',
+}
+
+
+@lemma('S5.skeletons', 'C12', quick=[{'sk': s, 'set': 'html'} for s in sorted(S5_SKELETONS)],
+       thorough=[{'sk': s, 'set': t} for s in sorted(S5_SKELETONS) for t in ('html', 'markdown', 'latex', 'xwiki')], timeout=600, per_path=120,
+       covers=['block_token.py:Table.__init__', 'block_token.py:TableRow.__init__', 'block_token.py:TableCell.__init__', 'block_token.py:List.__init__',
+               'block_token.py:ListItem.__init__', 'block_token.py:CodeFence.__init__', 'block_token.py:HtmlBlock.__init__', 'span_tokenizer.py:ParseToken.make', 'token.py:Token.children'],
+       note='one skeleton per constructor path that chooses child kinds (table rows shorter / longer than the column count, header row, setext heading replacing a paragraph inside an item, code in a quote, HTML block, nested lists, every inline token, empty containers) with ONE symbolic character over Σmd (or nothing): the object-graph invariants, traverse and the AST mirror')
+def s5_skeletons(c1: int, has: bool) -> bool:
+    """
+    pre: cp_md(c1) and c1 != 10
+    post: _
+    """
+    from mistletoe import Document
+    from mistletoe.ast_renderer import get_ast
+    s = S5_SKELETONS[P('sk')].format(chr(c1) if has else '')
+    with _token_sets()[P('set')]():
+        doc = Document(s)
+    return tree_ok(doc, None) and traverse_ok(doc) and mirror_ok(doc, get_ast(doc))
